@@ -158,7 +158,9 @@ inline std::string preamble(const Plan& p) {
         s +=
             "class QP { public qubit q; public int id; public constructor(int id) -> QP { this.id = id; return this; } public destructor() -> void { echo(\"~QP \" + this.id); } }\n"
             "class QL { public QL next; public QP p; public constructor(int id) -> QL { this.next = null; this.p = new QP(id); return this; } }\n"
-            "function qcyc(int id) -> void { QL a = new QL(id); QL b = new QL(id + 1); a.next = b; b.next = a; }\n";
+            "function qcyc(int id) -> void { QL a = new QL(id); QL b = new QL(id + 1); a.next = b; b.next = a; }\n"
+            // a collection is requested after the last allocation, while the cycle is still reachable
+            "function qcycD(int id) -> void { QL a = new QL(id); QL b = new QL(id + 1); a.next = b; b.next = a; N t = new N(id); destroy t; int pad = 0; }\n";
     if (p.edge) {
         s +=
             "class H0 { public int z; public constructor() -> H0 { this.z = 0; return this; } public virtual function lvl() -> int { return 0; } }\n"
@@ -292,7 +294,7 @@ inline std::string renderStmt(const Plan& p, const Stmt& st, int index) {
         case T_E_NEG_ARRAY: return "    final int an" + I(index) + " = " + I((st.a % 3)) + ";\n    int[an" + I(index) + "] arr" + I(index) + ";\n    echo(arr" + I(index) + ");\n";
         case T_E_DESTROY_TWICE: return "    N dt" + I(index) + " = mk(" + I(id) + ");\n    destroy dt" + I(index) + ";\n    destroy dt" + I(index) + ";\n    N dn" + I(index) + " = null;\n    destroy dn" + I(index) + ";\n";
         case T_E_SUPER_CALL: return "    M sm" + I(index) + " = new M(" + I(id) + ");\n    echo(sm" + I(index) + ".baseTag());\n    echo(sm" + I(index) + ".tag());\n";
-        case T_QCYCLE: return "    qcyc(" + I(id) + ");\n    echo(\"after qcyc\");\n";
+        case T_QCYCLE: return std::string("    ") + (st.a % 2 ? "qcycD(" : "qcyc(") + I(id) + ");\n    echo(\"after qcyc\");\n";
         case T_E_DTOR_ERR: {
             std::string cls = st.a % 2 ? "BadDtorN" : "BadDtor";   // error at the top level of the destructor body / inside nested blocks
             return "    " + cls + " bdt" + I(index) + " = new " + cls + "();\n    destroy bdt" + I(index) + ";\n    echo(\"after dtor err\");\n";
@@ -364,7 +366,10 @@ inline Plan generate(sim::Rng& g, bool edge, bool allowDtorErr, bool allowQcycle
         for (int i = 0; i < k; ++i) {
             Stmt st;
             st.tpl = T_QCYCLE;
-            p.main.insert(p.main.begin() + (long)g.below(p.main.size() + 1), st);
+            st.a = (int)g.below(12);
+            // at the very end of main in part of the programs: nothing is allocated after the cycle has been dropped
+            if (g.chance(0.4)) p.main.push_back(st);
+            else p.main.insert(p.main.begin() + (long)g.below(p.main.size() + 1), st);
         }
     }
     if (allowDtorErr && g.chance(0.5)) {
